@@ -30,6 +30,7 @@ from pyvc.verify import explore, obligation_smt2  # noqa: E402
 from pyvc.discharge import solve_text  # noqa: E402
 from pyvc import replay as replay_mod  # noqa: E402
 
+LAST_BUDGET = 150
 QUICK_BUDGET = 20
 THOROUGH_BUDGET = 90
 
@@ -76,6 +77,16 @@ def main(argv=None):
     if args.replay:
         return replay_mod.replay_file(args.replay)
     t_start = time.time()
+    # scratch SMT files of earlier runs (kept only for refuted / undischarged obligations) are removed after an hour
+    try:
+        from pyvc.discharge import WORKDIR
+
+        for fn_ in os.listdir(WORKDIR):
+            fp_ = os.path.join(WORKDIR, fn_)
+            if os.path.isfile(fp_) and t_start - os.path.getmtime(fp_) > 3600:
+                os.unlink(fp_)
+    except OSError:
+        pass
     budget = THOROUGH_BUDGET if tier == "thorough" else QUICK_BUDGET
     env = make_env()
     mods = sorted(glob.glob(os.path.join(ROOT, "contracts", f"{prop.lower()}_*.py")))
@@ -165,14 +176,16 @@ def main(argv=None):
 
     known_clauses = {f["clause"] for f in load_known().get("open", []) if f["property"] == prop}
     slice_stats = {}
+    _led = load_ledger(prop)
+    ledger_clauses = set((_led or {}).get("clauses", {}))
 
     def work(job):
         idx, text = job
         rep, ob = obligations[idx]
-        # proving from the hypotheses since the loop head alone: only where it pays (per clause: given up after three
+        # proving from the hypotheses since the loop head alone: only where it pays (per clause: given up after six
         # failures without a success)
         st_ = slice_stats.setdefault(ob.clause, [0, 0])
-        if ob.meta.get("pc_mark") is not None and ob.clause not in known_clauses and not (st_[0] == 0 and st_[1] >= 3):
+        if ob.meta.get("pc_mark") is not None and ob.clause not in known_clauses and not (st_[0] == 0 and st_[1] >= 6):
             try:
                 with lock:
                     stext = obligation_smt2(env, ob, sliced=True)
@@ -232,6 +245,22 @@ def main(argv=None):
                     r = r2
                     break
                 text = text2
+        if r.status == "unknown" and ob.clause in ledger_clauses:
+            # this clause was discharged on the tree the ledger was recorded on: before it is reported as no longer
+            # provable, one last attempt with a long budget on the sliced and the full text (verdicts must not flip
+            # because the machine is busy)
+            for sl in ([True] if ob.meta.get("pc_mark") is not None else []) + [False]:
+                try:
+                    with lock:
+                        t3 = obligation_smt2(env, ob, sliced=sl, extra_fuel=1)
+                    r3 = solve_text(t3, ob.clause + ".last", LAST_BUDGET)
+                    if args.v:
+                        print(f"   last attempt ({'slice' if sl else 'full'}): {ob.clause} -> {r3.status} {r3.time:.1f}s")
+                    if r3.status == "discharged":
+                        r = r3
+                        break
+                except Exception:
+                    pass
         return idx, (r.status, r.backend, r.time, r.detail, r.file)
 
     with ThreadPoolExecutor(max_workers=int(os.environ.get("PYVC_WORKERS", "12"))) as ex:
